@@ -3,7 +3,15 @@
 MC      MC_Heap, Heap.tla on itself, every operation sequence of length <= 5 over 3 objects (2 regions each) + a buffer:
           Variant "ok"   region discipline followed: Disjoint, non-interference, copy equality, read-only frame hold
           Variant "any"  Copy/Unpack may return arbitrary regions: Disjoint-before-the-step => non-interference (InvImpl)
-          Variants "shallowcopy" / "aliasunpack" / "dirtyro": InvNI MUST be violated (non-vacuity; else Infra)
+          Variants "shallowcopy" / "aliasunpack" / "dirtyro" / "reusecopyto": InvNI MUST be violated (non-vacuity; else Infra)
+        Ext = with the CALLER's Alias (a shallow copy sharing a non-empty set of regions with its source: cp := *m, scratch.Answer
+        = m.Answer; `al' records who shares with whom by the caller's doing -- only for those is sharing no defect, a write seen
+        in the partner, bookkeeping written through) and CopyTo(x, t) into ANY live object t: afterwards t shares nothing with
+        x nor with any object that was not its partner (InvCopyTo), equals x, and x and every object the caller did not alias
+        to t are as before (InvNI).  AMBIG: storage t held -- alone or together with THIRD objects aliased to it -- may be used
+        again (a write to t is expected to show in those); a region of the source may not.  Quick: the operations of the
+        first rounds to depth 5, with Ext to depth 4;
+        "anycopyto": only CopyTo may return arbitrary regions -- Disjoint before and CopyTo's discipline => non-interference.
 GEN     Gen_Heap exports every operation sequence of length N (quick 3, thorough 4) over {Copy(original), Copy(latest),
         Mutate(original), Mutate(latest), 7 read-only ops, Unpack, Scribble} with the predicted live set, abstract regions,
         changed objects, bookkeeping permissions and copy equalities  ->  harness `heap replay`: each sequence on every type
@@ -16,8 +24,17 @@ GEN     Gen_Heap exports every operation sequence of length N (quick 3, thorough
         element, slice header, pointer, interface, and an append within the capacity of every slice -- the exact snapshot shows
         the hidden capacity [len:cap]) one at a time and looks at all other objects and the buffer;
         Scribble inverts every octet of the buffer.
+        Alphabet "copyto" (quick 252 sequences of length 3, thorough 4020 of length 4): every sequence with a CopyTo into a
+        live object over {Copy, Alias(original|latest, all|one), CopyTo(a, b) for all ordered pairs whose target shares memory
+        with nobody but -- possibly -- the source, Mutate, Pack, Copy, Unpack}  ->
+        whole messages (the small shapes incl. windowed sections, no-question; thorough: the full-size message): Alias "all" is
+        cp := *m, "one" a message filled by an earlier CopyTo whose first non-empty section (or question) was then assigned
+        from m; after CopyTo the target's real regions are disjoint from every other object's, its value is the source's,
+        source and third objects are unchanged, and the every-cell probe of a later Mutate shows nothing in the others.
 TV      harness `heap record`: random operation sequences over random types; events carry region ids per backing store
-        and content digests -> Trace_Heap (discipline at Copy/Unpack/NewBuf, post-state agreement, non-interference).
+        and content digests -> Trace_Heap (discipline at Copy/Unpack/NewBuf, post-state agreement, non-interference);
+        on messages also `alias' (struct copy / one section assigned) and `copyto' events (half of the aliases are followed
+        at once by a CopyTo between the two, in either direction); Trace_Heap keeps `al' itself.
 
 Mutants (checks/mutants/C16), all exit 1, each caught by BOTH the GEN->replay and the record->TV stage
 (mismatch_counts / trace_rejections in the evidence):
@@ -37,38 +54,75 @@ Seeded changes /verif/seeded/C16-{1,2,3} (all exit 1):
                                                       (the trace tier identifies regions by their visible part)
   C16-2 rawSignatureData copies only when the header changes   GEN readonly/sign-mutates:<type>, readonly/verify-mutates:<type> on #lc; TV ro events
   C16-3 packDataSVCB sorts the caller's slice          GEN readonly/pack-mutates:svcb-value on SVCB#unsorted / HTTPS#unsorted / Msg; TV ro events
+  C16-17 CopyTo rebuilds the sections inside the target's arrays   GEN copyto/msg-answer-shared, copyto/msg-question-shared, copyto/<record>-shared,
+                                                      copyto/changes-source:* (alphabet "copyto": Alias; CopyTo);
+                                                      TV copyto/msg-answer-shared, copyto/msg-question-shared (copyto events)
+Mutant copyto-reuses-question-array.diff (r1.Question = append(r1.Question[:0], ...)): GEN copyto/msg-question-shared (Alias all / one on the
+                                                      question-only shapes); TV copyto/msg-question-shared
 """
 import os, json
 import vp
 
 ALLRO = '{"Pack", "Len", "String", "IsDuplicate", "Copy", "Sign", "Verify"}'
-BROKEN = ["shallowcopy", "aliasunpack", "dirtyro"]
+BROKEN = ["shallowcopy", "aliasunpack", "dirtyro", "reusecopyto"]
 
 
-def mc(ctx):
+def mc_jobs(ctx):
+    """Heap.tla on itself.  Ext = with the caller's Alias and CopyTo into live objects (the state space is ~20 times larger:
+    the quick tier checks them to depth 4 with two read-only operations, and the operations of the first rounds to depth 5)."""
     q = ctx.quick
-    ctx.tlc("MC_Heap", workers=4, xmx="3g", timeout=1500, consts={"Variant": '"ok"', "MaxDepth": 5, "ROOps": ALLRO})
-    ctx.tlc("MC_Heap", cfg="MC_Heap_any", workers=4, xmx="3g", timeout=2400,
-            consts={"Variant": '"any"', "MaxDepth": 3 if q else 4, "ROOps": '{"Pack"}' if q else '{"Pack", "Sign"}'})
-    for v in BROKEN:
+    PS = '{"Pack", "Sign"}'
+    jobs = [lambda: ctx.tlc("MC_Heap", workers=4, xmx="3g", timeout=1500, consts={"Variant": '"ok"', "MaxDepth": 5, "ROOps": ALLRO, "Ext": "FALSE"}),
+            lambda: ctx.tlc("MC_Heap", workers=2 if q else 6, xmx="2g" if q else "6g", timeout=3000,
+                            consts={"Variant": '"ok"', "MaxDepth": 4 if q else 5, "ROOps": PS if q else '{"Pack", "Sign", "IsDuplicate"}', "Ext": "TRUE"}),
+            lambda: ctx.tlc("MC_Heap", cfg="MC_Heap_any", workers=2, xmx="2g" if q else "3g", timeout=2400,
+                            consts={"Variant": '"any"', "MaxDepth": 3 if q else 4, "ROOps": '{"Pack"}' if q else PS, "Ext": "FALSE"}),
+            lambda: ctx.tlc("MC_Heap", cfg="MC_Heap_any", workers=2, xmx="2g" if q else "3g", timeout=2400,
+                            consts={"Variant": '"anycopyto"', "MaxDepth": 3 if q else 4, "ROOps": '{"Pack"}', "Ext": "TRUE"})]
+    if not q:
+        jobs.append(lambda: ctx.tlc("MC_Heap", cfg="MC_Heap_any", workers=4, xmx="3g", timeout=2400,
+                                    consts={"Variant": '"any"', "MaxDepth": 3, "ROOps": '{"Pack"}', "Ext": "TRUE"}))
+
+    def broken(v):
         r = ctx.tlc("MC_Heap", cfg="MC_Heap_broken", workers=1, xmx="2g", timeout=600, must_pass=False, count=False,
-                    consts={"Variant": '"%s"' % v, "MaxDepth": 5, "ROOps": '{"Pack", "Sign"}'})
+                    consts={"Variant": '"%s"' % v, "MaxDepth": 5, "ROOps": PS, "Ext": "TRUE"})
         if "Invariant InvNI is violated" not in r.out:
             raise vp.Infra("MC_Heap variant %s: the broken model does not violate non-interference (vacuous invariant):\n%s" % (v, r.out[-1500:]))
-    # reachability witnesses of the correct model: three live objects; bookkeeping written by a read-only operation
-    for w, inv in (("MC_Heap_w1", "WitnessThreeObjects"), ("MC_Heap_w2", "WitnessBookkeeping")):
+
+    # reachability witnesses of the correct model: three live objects; bookkeeping written by a read-only operation;
+    # a CopyTo into a target that shares memory with its source; a write seen through a partner
+    def witness(w, inv):
         r = ctx.tlc("MC_Heap", cfg=w, workers=1, xmx="2g", timeout=600, must_pass=False, count=False,
-                    consts={"Variant": '"ok"', "MaxDepth": 5, "ROOps": '{"Pack", "Sign"}'})
+                    consts={"Variant": '"ok"', "MaxDepth": 5, "ROOps": PS, "Ext": "TRUE"})
         if "Invariant %s is violated" % inv not in r.out:
             raise vp.Infra("MC_Heap: witness %s not reachable:\n%s" % (inv, r.out[-1500:]))
 
+    def small():
+        for v in BROKEN:
+            broken(v)
+        for w, inv in (("MC_Heap_w1", "WitnessThreeObjects"), ("MC_Heap_w2", "WitnessBookkeeping"),
+                       ("MC_Heap_w3", "WitnessCopyToAliased"), ("MC_Heap_w4", "WitnessSharedWrite")):
+            witness(w, inv)
+    return jobs + [small]
 
-def gen(ctx, binp, n, nshards):
-    r, vecs = ctx.tlc_vectors("Gen_Heap", workers=1, xmx="3g", timeout=3000, consts={"N": n})
-    path = os.path.join(r.dir, "vectors.ndjson")
-    if not vecs:
+
+def mc(ctx):
+    vp.parallel(mc_jobs(ctx), maxpar=3)
+
+
+def gen(ctx, binp, n, nshards, next_):
+    """Both alphabets: the sequences of length n over the operations on independent objects, and the sequences of length
+    next_ with a CopyTo into a live object (over Copy, the caller's Alias, CopyTo, Mutate, Pack, Copy, Unpack)."""
+    r, vecs = ctx.tlc_vectors("Gen_Heap", workers=1, xmx="3g", timeout=3000, consts={"N": n, "Alphabet": '"base"'})
+    r2, vecs2 = ctx.tlc_vectors("Gen_Heap", workers=1, xmx="3g", timeout=3000, consts={"N": next_, "Alphabet": '"copyto"'})
+    if not vecs or not vecs2:
         raise vp.Infra("Gen_Heap exported nothing")
+    path = os.path.join(ctx.out, "vectors-all.ndjson")
+    with open(path, "w") as f:
+        for d in (r.dir, r2.dir):
+            f.write(open(os.path.join(d, "vectors.ndjson")).read())
     ctx.notes["sequences"] = len(vecs)
+    ctx.notes["sequences_copyto"] = len(vecs2)
 
     def one(sh):
         s = ctx.run_json(binp, ["replay", path, str(sh), str(nshards)], timeout=7200)
@@ -89,7 +143,7 @@ def trace_key(events):
         t = e["t"]
         ev = e["ev"]
         objs = {ob["o"]: ob for ob in e["objs"]}
-        if ev in ("copy", "unpack"):
+        if ev in ("copy", "unpack", "copyto"):
             y = objs.get(e["y"])
             if y:
                 for r in y["s"]:
@@ -154,22 +208,21 @@ def tv(ctx, binp, episodes, nproc):
 
 def run(ctx):
     binp = ctx.build("heap")
-    mc(ctx)
+    # model checking of Heap.tla on itself, export + replay of the behaviours, recording + trace validation: independent, side by side
     if ctx.quick:
-        gen(ctx, binp, 3, 6)
-        tv(ctx, binp, 150, 2)
+        vp.parallel([lambda: mc(ctx), lambda: gen(ctx, binp, 3, 6, 3), lambda: tv(ctx, binp, 150, 2)])
     else:
-        gen(ctx, binp, 4, 8)
-        tv(ctx, binp, 500, 8)
+        vp.parallel([lambda: mc(ctx), lambda: gen(ctx, binp, 4, 8, 4), lambda: tv(ctx, binp, 500, 8)])
     ctx.assumptions += [
         "regions are observed as address intervals (base, cap x element size) of slice backing arrays, pointees and maps; Go strings are immutable and are content, not regions",
         "documented bookkeeping = RR_Header.Rdlength and the upper 8 bits of an OPT header's TTL (extended RCODE); AMBIG: any read-only operation may write it, on its arguments only",
         "the PrivateRR case uses the harness' own PrivateRdata (deep Copy): it exercises PrivateRR.copy, not third-party rdata",
         "trace tier: region identity by the visible part (len) of each backing array; sharing of hidden capacity only is looked for in the replay tier (cap-based)",
+        "the caller's aliasing is the shallow struct copy and the assignment of one section slice; slot 2 of an aliased message = the first record of its first non-empty section (else its first question); objects the caller made share memory are not compared with each other (overlap, probe) until a CopyTo separates them",
         "quick tier, whole messages: Mutate writes every cell of the message's own stores and one in six cells inside its records (each record type is probed exhaustively on its own)",
     ]
     return ctx.finish(rule="sequences: all operation sequences of length N over 13 operations x every RR type + unknown + private + 2 message "
-                      "cases; evaluations = steps executed + single-cell writes probed; distinct_nontrivial = distinct (case, operation, "
+                      "cases, all sequences of length N' with a CopyTo into a live object x the message shapes; evaluations = steps executed + single-cell writes probed; distinct_nontrivial = distinct (case, operation, "
                       "operation succeeded) triples; events: random sequences, each judged by TLC against Heap.tla")
 
 
